@@ -15,6 +15,8 @@
    Partial: the composition into "replica invariant preserved by verify_and_apply_proof" (byte offsets,
    storage) and Ed25519 unforgeability itself are not proved; the alteration enumeration of tools/c04.py
    covers the composition on every run. *)
+From HC Require Import AnyProofLib AnyProofUp AnyProof.
+From HC Require AnyProofEx.
 From HC Require Import FlatTree Bitfield Oplog Merkle Core Refine SoundCoreLib SoundCore SoundCoreUp SoundCoreBU.
 From HC Require Import Base NMap Codec CodecFacts Crypto FlatTree Storage Bitfield Oplog Merkle Core Sound CoreFacts.
 
@@ -226,6 +228,99 @@ Theorem C04_single_size_alteration_detected :
          parent_hash cr a b = parent_hash cr a' b -> n_length a = n_length a' \/ some_collision cr.
 Proof. exact single_size_alteration_detected. Qed.
 
+Theorem C04_any_accepted_proof_keeps_hashes_values_lengths :
+  forall cr : crypto,
+         (forall x : bytes, Datatypes.length (cr_hash cr x) = 32%nat) ->
+         (forall x : bytes, all_zero (cr_hash cr x) = false) ->
+         forall bs : list bytes,
+         writer_fits bs ->
+         forall (f : option bool) (pf : proof) (c : core) (d : disk) (j : list sop) 
+           (ev : list event) (c' : core) (w' : world),
+         HInv cr bs c d ->
+         proof_wire pf ->
+         tree_root_fits cr pf (c_tree c) ->
+         core_apply_proof cr f pf c {| w_disk := d; w_journal := j; w_events := ev |} = (c', w', Ok true) ->
+         HInv cr bs c' (w_disk w') /\
+         t_length (c_tree c) <= t_length (c_tree c') /\
+         (forall b : data_block,
+          p_block pf = Some b -> db_value b = TreeRef.blk bs (db_index b) /\ db_index b < t_length (c_tree c')) /\
+         signed_by_writer cr bs (signable (tree_hash cr (t_roots (c_tree c'))) (t_length (c_tree c')) 0) /\
+         i_byte_length (core_info c') = TreeRef.prefix_size bs (i_length (core_info c')) \/
+         some_collision cr \/ forged_signature cr bs (kp_public (c_keypair c)).
+Proof. exact apply_any_proof. Qed.
+
+Theorem C04_any_outcome_keeps_hash_invariant :
+  forall cr : crypto,
+         (forall x : bytes, Datatypes.length (cr_hash cr x) = 32%nat) ->
+         forall bs : list bytes,
+         writer_fits bs ->
+         forall (f : option bool) (pf : proof) (c : core) (d : disk) (j : list sop) 
+           (ev : list event) (c' : core) (w' : world) (r : res bool),
+         HInv cr bs c d ->
+         proof_wire pf ->
+         tree_root_fits cr pf (c_tree c) ->
+         core_apply_proof cr f pf c {| w_disk := d; w_journal := j; w_events := ev |} = (c', w', r) ->
+         HInv cr bs c' (w_disk w') \/ some_collision cr \/ forged_signature cr bs (kp_public (c_keypair c)).
+Proof. exact apply_any_proof_any_outcome. Qed.
+
+Theorem C04_bound_sizes_are_the_writers :
+  forall cr : crypto,
+         (forall x : bytes, Datatypes.length (cr_hash cr x) = 32%nat) ->
+         forall bs : list bytes,
+         writer_fits bs ->
+         forall (t : mtree) (tf : file) (pf : proof) (pk : bytes) (cs : changeset) (m : N),
+         accepted cr bs t tf pf pk cs m ->
+         t_roots t = TreeRef.ref_roots cr bs (t_length t) ->
+         forall x : node, size_bound cr t pf cs x -> In x (spool t cs) -> wsize cr bs x \/ some_collision cr.
+Proof. exact size_bound_sound. Qed.
+
+Theorem C04_unbound_sizes_characterised :
+  forall (cr : crypto) (bs : list bytes) (t : mtree) (tf : file) (pf : proof) 
+           (pk : bytes) (cs : changeset) (m : N),
+         accepted cr bs t tf pf pk cs m ->
+         forall x : node,
+         In x (cs_nodes cs) ->
+         size_bound cr t pf cs x \/
+         proof_supplied pf x /\ stored_check t tf x \/
+         proof_supplied pf x /\
+         (exists s P : node,
+            proof_supplied pf s /\
+            In s (cs_nodes cs) /\ In P (cs_nodes cs) /\ (merged_of cr x s P \/ merged_of cr s x P)).
+Proof. exact unbound_sizes_alone_or_in_sibling_pairs. Qed.
+
+Theorem C04_sibling_pair_sizes_keep_their_sum :
+  forall cr : crypto,
+         (forall x : bytes, Datatypes.length (cr_hash cr x) = 32%nat) ->
+         forall bs : list bytes,
+         writer_fits bs ->
+         forall (t : mtree) (tf : file) (pf : proof) (pk : bytes) (cs : changeset) (m : N),
+         accepted cr bs t tf pf pk cs m ->
+         forall x s P : node,
+         merged_of cr x s P \/ merged_of cr s x P ->
+         In P (cs_nodes cs) ->
+         n_length x + n_length s =
+         n_length (TreeRef.ref_at cr bs (n_index x)) + n_length (TreeRef.ref_at cr bs (n_index s)) \/
+         some_collision cr.
+Proof. exact sibling_pair_sum. Qed.
+
+Theorem C04_reads_under_correct_sizes :
+  forall (cr : crypto) (bs : list bytes),
+         writer_fits bs ->
+         forall (c : core) (d : disk) (j : list sop) (ev : list event) (i : N) (c' : core) 
+           (w' : world) (v : bytes),
+         HInv cr bs c d ->
+         sizes_ok_upto cr bs c d i ->
+         (len (TreeRef.blk bs i) <> 0 ->
+          f_read (d_data d) (TreeRef.prefix_size bs i) (len (TreeRef.blk bs i)) = Some (TreeRef.blk bs i)) ->
+         core_get i c {| w_disk := d; w_journal := j; w_events := ev |} = (c', w', Ok (Some v)) ->
+         v = TreeRef.blk bs i.
+Proof. exact get_under_sizes. Qed.
+
+Theorem C04_full_invariant_implies_hash_invariant :
+  forall (cr : crypto) (bs : list bytes),
+         writer_fits bs -> forall (c : core) (d : disk), RInv cr bs c d -> HInv cr bs c d.
+Proof. exact RInv_HInv. Qed.
+
 Print Assumptions C04_block_value_sound.
 Print Assumptions C04_climb_sound.
 Print Assumptions C04_leaf_hash_binds.
@@ -250,3 +345,14 @@ Print Assumptions SoundCore.size_carveout_upgrade_additional_refuted.
 Print Assumptions SoundCore.sc_replication.
 Print Assumptions SoundCoreBU.sc_block_upgrade_theorem_applies.
 Print Assumptions SoundCore.sc_refusal_applies.
+Print Assumptions C04_any_accepted_proof_keeps_hashes_values_lengths.
+Print Assumptions C04_any_outcome_keeps_hash_invariant.
+Print Assumptions C04_bound_sizes_are_the_writers.
+Print Assumptions C04_unbound_sizes_characterised.
+Print Assumptions C04_sibling_pair_sizes_keep_their_sum.
+Print Assumptions C04_reads_under_correct_sizes.
+Print Assumptions C04_full_invariant_implies_hash_invariant.
+Print Assumptions AnyProofEx.lone_node_size_refuted.
+Print Assumptions AnyProofEx.byte_length_after_reopen_refuted.
+Print Assumptions AnyProofEx.sizes_repaired_data_misplaced_refuted.
+Print Assumptions AnyProofEx.any_shape_applies.
